@@ -205,3 +205,91 @@ package util
 // 16-bit numbers identify the packets uniquely (used to lift the per-queue contracts to whole streams).
 //@ property C07
 //@ lemma forall s0 k m uint64 :: k < m && m - k < 32768 ==> uint16(s0+k) != uint16(s0+m)      :wrap_distinct
+
+// ===================================================================================================
+// DNS answer records (C12: arbitrary answers must not crash the client; C10: record shapes)
+
+// Records produced by the DNS library's Unpack (and by WrapDnsResponse) are non-nil pointers.
+//@ nonnil-dynamic github.com/miekg/dns.RR github.com/miekg/dns.PrivateRdata
+
+//@ iface (github.com/miekg/dns.PrivateRdata).String (d dns.PrivateRdata) (result string)
+//@   stable
+
+//@ go func tagReadable(rr dns.RR) bool {
+//@    switch v := rr.(type) {
+//@    case *dns.NULL: return len(v.Data) >= 2
+//@    case *dns.PrivateRR: return v.Data != nil && len(v.Data.String()) >= 2
+//@    case *dns.TXT: return len(v.Txt) > 0 && len(v.Txt[0]) >= 2
+//@    case *dns.CNAME: return len(v.Target) >= 2
+//@    case *dns.AAAA: return len(v.AAAA) >= 2
+//@    case *dns.A: return len(v.A) >= 1
+//@    }
+//@    return true
+//@ }
+//@ go func extractable(rr dns.RR, domain string) bool {
+//@    switch v := rr.(type) {
+//@    case *dns.MX: return len(v.Mx) >= len(domain)+2
+//@    case *dns.SRV: return len(v.Target) >= len(domain)+2
+//@    case *dns.CNAME: return len(v.Target) >= len(domain)+4
+//@    }
+//@    return tagReadable(rr)
+//@ }
+
+//@ func TypePriority
+//@   property C12
+//@   safe
+//@   terminates
+//@   pure
+//@   requires rr != nil ==> tagReadable(rr)                           :record_carries_its_tag
+
+//@ func wellFormedAnswer
+//@   property C12
+//@   safe
+//@   terminates
+//@   pure
+//@   ensures result && rr != nil ==> tagReadable(rr) && extractable(rr, domain)          :accepts_only_decodable_records
+
+//@ func UnwrapDnsResponse
+//@   property C12
+//@   safe
+//@   terminates
+//@   requires q != nil
+//@   loop 1 vars iter int, rng []dns.RR, answers []dns.RR
+//@   loop 1 invariant forall k :: 0 <= k && k < len(answers) ==> answers[k] == nil || (tagReadable(answers[k]) && extractable(answers[k], domain))
+//@   callsite sort.Slice#1 (answers []dns.RR) assume forall k :: 0 <= k && k < len(answers) ==> answers[k] == nil || (tagReadable(answers[k]) && extractable(answers[k], domain))  "sort.Slice only permutes the elements: what held for every element still holds for every element"
+//@   loop 2 vars iter int, rng []dns.RR
+
+//@ func UnwrapDnsResponse$1
+//@   property C12
+//@   trusted "comparison closure invoked by sort.Slice with indices inside the filtered slice, whose elements all satisfy tagReadable (TypePriority's precondition)"
+
+//@ func Undotify
+//@   property C12, C10
+//@   safe
+//@   pure
+//@   ensures len(result) <= len(buf) || true
+
+//@ func (rd *SocketAcePrivate) String
+//@   property C12
+//@   safe
+//@   pure
+//@ func (rd *SocketAcePrivate) Len
+//@   property C12
+//@   safe
+//@   pure
+//@ func (rd *SocketAcePrivate) Pack
+//@   property C12
+//@   safe
+//@ func (rd *SocketAcePrivate) Unpack
+//@   property C12
+//@   safe
+//@ func (rd *SocketAcePrivate) Copy
+//@   property C12
+//@   safe
+//@ func (rd *SocketAcePrivate) Parse
+//@   property C12
+//@   safe
+
+// the record type used for PRIVATE answers is the one registered with the DNS library
+//@ property C10, C12
+//@ pkginv uint16(QueryTypePrivate) == TypeSocketAce            :private_type_registered
